@@ -295,7 +295,11 @@ def _probe_rng(spec):
     return random.Random(canon_hash(spec))      # probes are a function of the spec
 
 
-def one_case(run, rng, case_id, allow_hypothesis=True):
+def one_case(run, rng, case_id, allow_hypothesis=True, cold=False):
+    """cold=True: the caller guarantees a fresh interpreter in which nothing
+    has been validated yet; the snapshot / fingerprint are then taken BEFORE
+    the first validation of the process (lazily registered backends and
+    built-in check implementations appear during the history)."""
     backend = "polars" if rng.random() < 0.2 else "pandas"
     spec = G.gen_spec(rng, backend=backend)
     if spec["kind"] == "column" and rng.random() < 0.35:
@@ -308,10 +312,19 @@ def one_case(run, rng, case_id, allow_hypothesis=True):
         run.count(f"build_error:{type(e).__name__}")
         return
     probes = G.probes(spec, _probe_rng(spec))
-    base = baseline_vector(spec, probes)
+    if cold:
+        # snapshot first, pristine verdicts afterwards
+        w = Watch(run, spec, probes, None)
+        run.count("cold:case")
+        run.count("cold:snapshot_taken" if w.snapshot is not None
+                  else "cold:no_snapshot")
+        base = baseline_vector(spec, probes)
+        w.base = base
+    else:
+        base = baseline_vector(spec, probes)
+        w = Watch(run, spec, probes, base)
     n_ok = sum(1 for b in base if b[0][0] == "ok")
     n_rej = sum(1 for b in base if b[0][0] in ("SchemaError", "SchemaErrors"))
-    w = Watch(run, spec, probes, base)
     n_ops = rng.randint(4, 12)
     ops = []
     for k in range(n_ops):
@@ -347,8 +360,40 @@ def one_case(run, rng, case_id, allow_hypothesis=True):
         run.count(f"probe:{t.split(':')[0]}")
 
 
+N_COLD = {"quick": 16, "thorough": 192}
+
+
+def _cold_cases(run, ctx):
+    """Each cold case runs in its own fresh interpreter (pvm/c05_cold.py)."""
+    import os
+    import subprocess
+    import tempfile
+    from .. import env
+    for i in ctx.cases(N_COLD[ctx.tier]):
+        fd, part = tempfile.mkstemp(prefix="pvm_c05cold_", suffix=".json")
+        os.close(fd)
+        try:
+            p = subprocess.run(
+                [env.PY, "-m", "pvm.c05_cold", str(ctx.seed), str(i), part],
+                cwd=env.VERIF, timeout=600, capture_output=True, text=True)
+            if p.returncode != 0:
+                run.note_inconclusive(
+                    f"cold case {i}: child exit {p.returncode}: {p.stderr[-300:]}")
+                continue
+            with open(part) as f:
+                run.merge(json.load(f))
+        except subprocess.TimeoutExpired:
+            run.note_inconclusive(f"cold case {i}: watchdog timeout")
+        finally:
+            try:
+                os.unlink(part)
+            except OSError:
+                pass
+
+
 def run(run, ctx):
     n = N[ctx.tier]
+    _cold_cases(run, ctx)
     G.warm_up()
     for i in ctx.cases(n):
         rng = ctx.rng(PID, i)
@@ -388,6 +433,8 @@ def finalize(run, ctx):
                     ("schema:pandas:series", 4), ("schema:pandas:column", 4),
                     ("schema:polars:frame", 10)]:
         run.floors[name] = m * k
+    run.floors["cold:case"] = 12 if ctx.tier == "quick" else 150
+    run.floors["cold:snapshot_taken"] = 8 if ctx.tier == "quick" else 100
 
 
 def replay(path):
